@@ -217,7 +217,7 @@ buffer holds, full included — or still has room for one value (`PassableFrom`)
 returns by internal steps alone. -/
 theorem departure_never_wedges_execute_all_stalled {cfg : Cfg} (hfix : cfg.fixed = true) (hcap : 0 < cfg.cap)
     {s : State} (hr : Reach (Batcher.lts cfg) s) {r : It} (hpc : s.p.pc = .running r)
-    (hd : ∀ j u, s.subs[j]? = some u → u.ctxDone = true ∨ u.buf.length < cfg.cap) :
+    (hd : ∀ (j : Nat) (u : Sub), s.subs[j]? = some u → u.ctxDone = true ∨ u.buf.length < cfg.cap) :
     ∃ s', Steps (Batcher.lts cfg) (Allowed (fun _ => True)) s s' ∧ s'.epc = .idle ∧ s'.p = { s.p with pc := .top } := by
   obtain ⟨s', h1, h2, h3, _⟩ := execute_completes_room (stalled := fun _ => True) hfix hcap hr hpc
     (fun j u _ hu _ => hd j u hu)
